@@ -221,17 +221,73 @@ def validate_groups(ctx, trace, module="ReaderTrace", chunk=12000):
             raise ToolError("too many rejected events")
 
 
+def check_dwarf(ctx, case, o, profile, stats):
+    """Dwarf-level identity (MCDwarf): borrowed sections = owner sections, offset ids of every section resolve."""
+    how = case["how"]
+    names = [e[0] for e in case["main"]]
+    if how != "Lists::borrow":
+        missing = sorted(set(names) - set(o["loaded"]))
+        extra = sorted(set(o["loaded"]) - set(names))
+        if missing or extra:
+            ctx.violation("dwarf:section-list:%s" % "+".join(missing + extra),
+                          "%s: sections the model lists but the loader was not asked for: %s; loaded but unknown to the model: %s"
+                          % (how, missing, extra), {"how": how}, {"loaded": o["loaded"]})
+    obs_views = {(v["sup"], v["sec"]): v for v in o["views"] if isinstance(v, dict)}
+    exp_views = {(v["sup"], v["sec"]): v for v in case["views"]}
+    for key, e in exp_views.items():
+        g = obs_views.get(key)
+        stats["dwarf_views"] += 1
+        if g != e:
+            bad = "missing" if g is None else "+".join(k for k in ("bytes", "ptr", "borrowed") if g.get(k) != e.get(k))
+            ctx.violation("dwarf:borrowed-section:%s%s:%s" % (key[1], "(sup)" if key[0] else "", bad),
+                          "%s [%s]: section %s of the %s file: model %s, observed %s" %
+                          (how, profile, key[1], "supplementary" if key[0] else "main", json.dumps(e), json.dumps(g)),
+                          {"how": how, "expected": e}, g)
+    if how != "Lists::borrow":
+        for key in sorted(set(obs_views) - set(exp_views)):
+            ctx.violation("dwarf:section-unknown-to-model:%s" % key[1],
+                          "%s: Dwarf exposes section %s which MCDwarf does not list" % (how, key[1]), {"how": how}, obs_views[key])
+    obs_probes = {(p["sup"], p["sec"], p["k"]): p for p in o["probes"]}
+    for e in case["probes"]:
+        g = obs_probes.get((e["sup"], e["sec"], e["k"]))
+        stats["dwarf_probes"] += 1
+        tag = e["sec"] + ("(sup)" if e["sup"] else "")
+        if g is None or g["res"] != e["res"]:
+            ctx.violation("dwarf:lookup_offset_id:%s" % tag,
+                          "%s [%s]: offset id taken at offset %d of %s: Dwarf::lookup_offset_id gave %s, model %s" %
+                          (how, profile, e["k"], tag, json.dumps(g and g["res"]), json.dumps(e["res"])),
+                          {"how": how, "probe": e}, g)
+        elif g["fmt"] != e["fmt"]:
+            ctx.violation("dwarf:format_error:%s" % tag,
+                          "%s [%s]: format_error(UnexpectedEof(id at %s+%d)) ends in %r, model %r" %
+                          (how, profile, tag, e["k"], g["fmt"], e["fmt"]), {"how": how, "probe": e}, g)
+        else:
+            ctx.nontrivial(("dwarf", how, e["sup"], e["sec"], e["k"]))
+
+
 def run(ctx):
     q = ctx.quick
     profiles = ["dev"] if q else ["dev", "release"]
     bins = {p: ctx.build("gvh-reader", p) for p in profiles}
-    stats = {"shadowed": 0, "probes": 0, "evals": 0}
+    stats = {"shadowed": 0, "probes": 0, "evals": 0, "dwarf_views": 0, "dwarf_probes": 0}
 
     # --- G
     r = ctx.tlc("MCReader", "MCReader_quick" if q else "MCReader_thorough", timeout=3000)
     for prof, b in bins.items():
         obs = replay_parallel(ctx, b, r.cases_path, "reader-" + prof, n=min(4, ctx.workers))
         compare_cases(ctx, r.cases_path, obs, prof, stats)
+
+    # --- G at the level of gimli::Dwarf: borrowed sections and offset ids of every section
+    rd = ctx.tlc("MCDwarf", "MCDwarf", workers=1, timeout=600)
+    for prof, b in bins.items():
+        obs = ctx.replay(b, rd.cases_path, tag="dwarf-" + prof)
+        for i, case in enumerate(read_ndjson(rd.cases_path)):
+            o = obs.get(i)
+            if o is None or "outcome" in o:
+                ctx.violation("dwarf:replay:%s:%s" % (case.get("how"), (o or {}).get("outcome")),
+                              "harness did not return normally", {"how": case.get("how")}, o)
+                continue
+            check_dwarf(ctx, case, o, prof, stats)
 
     # --- V
     if q:
@@ -255,7 +311,8 @@ def run(ctx):
                     "in that state (= every transition of the state graph plus the inherent range constructors), each executed on six "
                     "reader kinds after re-running the history from a fresh buffer; non-trivial = the probe succeeds and changes a window",
                exhaustive=True,
-               extra_cov={"probes": stats["probes"], "probe_evaluations": stats["evals"],
+               extra_cov={"dwarf_section_views": stats["dwarf_views"], "dwarf_offset_id_probes": stats["dwarf_probes"],
+                          "probes": stats["probes"], "probe_evaluations": stats["evals"],
                           "shadowed_kind_cases": stats["shadowed"]})
 
 
